@@ -29,16 +29,20 @@ Definition entry := (name * bytes)%type.
 Definition log := list entry.          (* archive members in file order *)
 Definition index := list entry.        (* AL: name -> bytes, insertion ordered (a Python dict) *)
 
-(* A member as it sits in a tar file also carries header fields.  kapture's index looks at the NAME only:
-   [strip] forgets the rest, and every reader-side definition below goes through it.  Members packed from
-   real files carry the file's mtime / mode / owner (tar -cf, tarfile.add); a member appended by
-   add_array_to_tar carries tarfile.TarInfo's defaults (mtime 0). *)
+(* A member as it sits in a tar file also carries header fields, and its payload is either the bytes of a regular
+   file, a HARD LINK to an earlier member (what tar / tarfile.add store for the 2nd.. name of one inode: size 0,
+   linkname = the first name) or a SYMBOLIC LINK (target given here as the archive path obtained by joining the
+   member's folder and its linkname).  kapture's index looks at the NAME only and reads through
+   tarfile.extractfile, which follows links: [flatten] (below, it needs path_secure) gives every member the bytes
+   a reader gets, and every reader-side definition goes through it.  Members packed from real files carry the file's
+   mtime / mode / owner; a member appended by add_array_to_tar carries tarfile.TarInfo's defaults (mtime 0). *)
 Record hdr := { h_mtime : Z; h_mode : N; h_uid : N; h_pax : list (string * string) }.
-Definition member := (name * hdr * bytes)%type.
+Inductive payload := PBytes (b : bytes) | PHard (target : name) | PSym (target : name).
+Definition member := (name * hdr * payload)%type.
 Definition m_name (m : member) : name := fst (fst m).
 Definition m_hdr (m : member) : hdr := snd (fst m).
-Definition m_entry (m : member) : entry := (m_name m, snd m).
-Definition strip (ms : list member) : log := map m_entry ms.
+Definition m_pay (m : member) : payload := snd m.
+Definition is_sym (m : member) : bool := match m_pay m with PSym _ => true | _ => false end.
 Definition hdr0 : hdr := {| h_mtime := 0; h_mode := 420; h_uid := 0; h_pax := [] |}.   (* TarInfo defaults, 0o644 *)
 
 (* ------------------------------------------------------------------ strings *)
@@ -154,20 +158,47 @@ Section Norm.
                 end
     end.
 
-  (* the same on members with headers: header fields are not looked at *)
-  Definition mview (ms : list member) : index := view (strip ms).
-  Definition mappend (ms : list member) (n : name) (b : bytes) : list member := ms ++ [(norm n, hdr0, b)].
-  (* NOT what kapture does — a tempting alternative kept to show what goes wrong: among members of one name keep
-     the one with the greatest modification time (ties: the later one) *)
-  Fixpoint put_by_mtime (m : list (name * (hdr * bytes))) (x : member) : list (name * (hdr * bytes)) :=
+  (* ---- members with headers and links.
+     pass 1, left to right: a regular member gives its bytes; a hard link gives the bytes of the LAST EARLIER member
+     whose (normalised) name is its target (tarfile._find_link_target searches the members before the link), and is
+     dropped when there is none (reading it raises KeyError; the harness never builds one); a symlink stays pending *)
+  Fixpoint flat1 (acc : index) (ms : list member) : list (name * (bytes + name)) :=
+    match ms with
+    | [] => []
+    | m :: r =>
+        match m_pay m with
+        | PBytes b => (m_name m, inl b) :: flat1 (insert (norm (m_name m)) b acc) r
+        | PHard t => match lookup (norm t) acc with
+                     | Some b => (m_name m, inl b) :: flat1 (insert (norm (m_name m)) b acc) r
+                     | None => flat1 acc r
+                     end
+        | PSym t => (m_name m, inr t) :: flat1 acc r
+        end
+    end.
+  Definition solid (l : list (name * (bytes + name))) : log :=
+    flat_map (fun e => match snd e with inl b => [(fst e, b)] | inr _ => [] end) l.
+  (* pass 2: a symlink gives the bytes of the last member OF THE WHOLE ARCHIVE under its target name (regular files
+     and hard links; chains of symlinks are not modelled and dropped) *)
+  Definition flat2 (l : list (name * (bytes + name))) : log :=
+    let final := view (solid l) in
+    flat_map (fun e => match snd e with
+                       | inl b => [(fst e, b)]
+                       | inr t => match lookup (norm t) final with Some b => [(fst e, b)] | None => [] end
+                       end) l.
+  Definition flatten (ms : list member) : log := flat2 (flat1 [] ms).
+  Definition mview (ms : list member) : index := view (flatten ms).
+  Definition mappend (ms : list member) (n : name) (b : bytes) : list member := ms ++ [(norm n, hdr0, PBytes b)].
+  (* NOT what kapture does — a tempting alternative kept to show what goes wrong: among regular members of one name
+     keep the one with the greatest modification time (ties: the later one) *)
+  Fixpoint put_by_mtime (m : list (name * (hdr * bytes))) (x : name * hdr * bytes) : list (name * (hdr * bytes)) :=
     match m with
-    | [] => [(norm (m_name x), (m_hdr x, snd x))]
+    | [] => [(norm (fst (fst x)), (snd (fst x), snd x))]
     | (k, (h, b)) :: m' =>
-        if eqb (norm (m_name x)) k
-        then (if Z.leb (h_mtime h) (h_mtime (m_hdr x)) then (k, (m_hdr x, snd x)) else (k, (h, b))) :: m'
+        if eqb (norm (fst (fst x))) k
+        then (if Z.leb (h_mtime h) (h_mtime (snd (fst x))) then (k, (snd (fst x), snd x)) else (k, (h, b))) :: m'
         else (k, (h, b)) :: put_by_mtime m' x
     end.
-  Definition view_by_mtime (ms : list member) : index :=
+  Definition view_by_mtime (ms : list (name * hdr * bytes)) : index :=
     map (fun e => (fst e, snd (snd e))) (fold_left put_by_mtime ms []).
 
   (* the harness (or a user) packs a folder: one member per file, in any order, under any spelling of the
@@ -228,6 +259,21 @@ Section Norm.
   End Kind.
 End Norm.
 
+(* a folder in which several paths may share one inode (hard links: a de-duplicated dataset), and the archive that
+   tar / tarfile.add make of it: the first path of an inode carries the bytes, later ones are hard links to it *)
+Definition ldir := list (name * nat * bytes).          (* path, inode, content *)
+Definition ldir_entries (ld : ldir) : log := map (fun x => (fst (fst x), snd x)) ld.
+Fixpoint pack_hl_go (seen : list (nat * name)) (ld : ldir) : list member :=
+  match ld with
+  | [] => []
+  | (n, i, b) :: r =>
+      match lookup i seen with
+      | Some t => (n, hdr0, PHard t) :: pack_hl_go seen r
+      | None => (n, hdr0, PBytes b) :: pack_hl_go ((i, n) :: seen) r
+      end
+  end.
+Definition pack_hl (ld : ldir) : list member := pack_hl_go [] ld.
+
 (* ------------------------------------------------------------------ correspondence *)
 (* path_secure as observed on the names of one case; names not listed are fixed points *)
 Definition tnorm (tbl : list (string * string)) (n : name) : name :=
@@ -251,7 +297,7 @@ Record store_case := {
   sc_norm : list (string * string);
   sc_kind : string;                          (* "Keypoints" | "Descriptors" | "GlobalFeatures" | "Matches" *)
   sc_files : index;                          (* loose feature files in the sub-folder *)
-  sc_tar : option (list member);             (* file members of the archive as packed, with their header fields *)
+  sc_tar : option (list member);             (* file / link members of the archive as packed, with their header fields *)
   sc_appends : log;                          (* then appended through kapture's API (mode 'a'), closed *)
   sc_handlers : bool;                        (* the reader passes get_all_tar_handlers(...) *)
   sc_known : option (list string);           (* images of records_camera; None = *_from_dir(images=None) *)
@@ -263,7 +309,9 @@ Record store_case := {
 
 Definition sc_store (c : store_case) : store :=
   {| s_files := sc_files c;
-     s_tar := option_map (fun l => strip l ++ map (nentry (tnorm (sc_norm c))) (sc_appends c)) (sc_tar c) |}.
+     s_tar := option_map (fun l => flatten (tnorm (sc_norm c))
+                                     (l ++ map (fun e => (tnorm (sc_norm c) (fst e), hdr0, PBytes (snd e))) (sc_appends c)))
+                         (sc_tar c) |}.
 
 Definition check_store (c : store_case) : bool :=
   let nm := tnorm (sc_norm c) in
@@ -282,7 +330,7 @@ Inductive ending := EKilled | EAlive | EClosed.
 
 Record append_case := {
   ac_norm : list (string * string);
-  ac_base : option (list member);              (* file members of the archive before the writer opens it *)
+  ac_base : option (list member);              (* file / link members of the archive before the writer opens it *)
   ac_ops : log;                                (* add_array_to_tar calls, in order *)
   ac_obs : list (nat * ending * opened);       (* (appends completed, how the writer ended, what a fresh reader saw) *)
   ac_windex : list (nat * list name)           (* the appending handler's own index after k appends *)
@@ -295,13 +343,30 @@ Definition opened_eqb (a b : opened) : bool :=
   | _, _ => false
   end.
 
+(* members on disk after the first k appends of a flushing writer; [None] = nothing a reader can open *)
+Definition disk_members (nm : name -> name) (base : option (list member)) (ops : log) : option (list member) :=
+  match base, ops with
+  | None, [] => None
+  | _, _ => Some (odflt [] base ++ map (fun e => (nm (fst e), hdr0, PBytes (snd e))) ops)
+  end.
+
 Definition check_append (c : append_case) : bool :=
   let nm := tnorm (ac_norm c) in
   tnorm_idem (ac_norm c)
   && forallb (fun o =>
        let '(k, e, seen) := o in
-       let w := run_appends nm true (open_append (option_map strip (ac_base c))) (firstn k (ac_ops c)) in
-       opened_eqb (reader nm (match e with EClosed => close w | _ => kill w end)) seen) (ac_obs c)
+       let ops := firstn k (ac_ops c) in
+       let base := ac_base c in
+       if existsb is_sym (odflt [] base) then
+         (* a symlink follows whatever is LAST under its target name, appended members included: flatten the whole archive *)
+         let d := match e with
+                  | EClosed => Some (odflt [] base ++ map (fun x => (nm (fst x), hdr0, PBytes (snd x))) ops)
+                  | _ => disk_members nm base ops
+                  end in
+         opened_eqb (match d with None => OpenFails | Some ms => Opened (mview nm ms) end) seen
+       else
+         let w := run_appends nm true (open_append (option_map (flatten nm) base)) ops in
+         opened_eqb (reader nm (match e with EClosed => close w | _ => kill w end)) seen) (ac_obs c)
   && forallb (fun o =>
        let '(k, ks) := o in
        set_eqb (keys (apply_ops nm (mview nm (odflt [] (ac_base c))) (firstn k (ac_ops c)))) ks) (ac_windex c).
